@@ -95,6 +95,13 @@ fn spellings(f: &Fields) -> Vec<String> {
     out
 }
 
+/// values at the top of the u32 range: a key packed into one integer (phase * MAX + number and the like) collides here
+fn boundary_universe() -> (Vec<V>, usize) {
+    const M: u32 = u32::MAX;
+    build_universe(&[0, M], &[vec![1], vec![M], vec![1, M], vec![1, 0]], &[None, Some(("a", 0)), Some(("a", M)), Some(("b", 0)), Some(("b", M)), Some(("rc", 0)), Some(("rc", M))],
+        &[None, Some(0), Some(M)], &[None, Some(0), Some(M)], &[None, Some("4294967295"), Some("4294967296")])
+}
+
 fn universe(quick: bool) -> (Vec<V>, usize) {
     let epochs = [0u32, 1];
     let releases: Vec<Vec<u32>> = if quick { vec![vec![1], vec![1, 0, 1], vec![1, 1], vec![2]] } else { vec![vec![1], vec![1, 0, 1], vec![1, 1], vec![2], vec![1, 0, 0, 1], vec![0], vec![10]] };
@@ -102,9 +109,13 @@ fn universe(quick: bool) -> (Vec<V>, usize) {
     let posts = [None, Some(0u32), Some(1)];
     let devs = [None, Some(0u32), Some(1)];
     let locals: Vec<Option<&'static str>> = if quick { vec![None, Some("1"), Some("9"), Some("10"), Some("a"), Some("1.a"), Some("a.9"), Some("a.10")] } else { vec![None, Some("1"), Some("2"), Some("9"), Some("10"), Some("a"), Some("b"), Some("1.a"), Some("a.1"), Some("a.a"), Some("a.9"), Some("a.10"), Some("a1"), Some("a.1.0")] };
+    build_universe(&epochs, &releases, &pres, &posts, &devs, &locals)
+}
+
+fn build_universe(epochs: &[u32], releases: &[Vec<u32>], pres: &[Option<(&'static str, u32)>], posts: &[Option<u32>], devs: &[Option<u32>], locals: &[Option<&'static str>]) -> (Vec<V>, usize) {
     let mut out = vec![];
     let mut vid = 0;
-    for e in epochs { for r in &releases { for p in &pres { for po in posts { for d in devs { for l in &locals {
+    for &e in epochs { for r in releases { for p in pres { for &po in posts { for &d in devs { for l in locals {
         let f = Fields { epoch: e, release: r.clone(), pre: *p, post: po, dev: d, local: *l };
         let sp = spellings(&f);
         let r0 = rp::parse(&sp[0]).unwrap_or_else(|| machinery_error(&format!("model rejects {:?}", sp[0])));
@@ -226,6 +237,9 @@ fn main() {
     }
     let (u, n_versions) = universe(ctx.quick());
     let s_pairs = check_pairs(&ctx, &u);
+    let (ub, nb_versions) = boundary_universe();
+    let s_bound = check_pairs(&ctx, &ub);
+    let s_pairs = s_pairs.merge(s_bound);
     let tri_n = if ctx.quick() { 150 } else { 400 };
     let stride = (u.len() / tri_n).max(1);
     // stride chosen odd relative to 5 spellings so that all spellings occur
@@ -242,12 +256,12 @@ fn main() {
 
     let all = s_pairs.clone().merge(s_tri).merge(s_mt);
     let mut cov = Coverage::default();
-    cov.states = u.len() as u64;
+    cov.states = (u.len() + ub.len()) as u64;
     cov.transitions = all.get("pairs");
     cov.evaluations = all.get("pairs") + all.get("triples") + all.get("max_tag_sets");
     cov.traces_validated = cov.evaluations;
     cov.distinct_nontrivial = s_pairs.get("want_unequal") + s_pairs.get("same_version_spelling_pairs");
-    cov.rule = format!("{n_versions} abstract versions (epoch x release x pre x post x dev x local field universe), each written in 5 spellings (normal; upper case + long labels + -/_ separators; leading zeros + v; trailing .0.0 release + alternative labels + -N post; explicit epoch + .0 + implicit zero numbers) and parsed by the real parser = {} objects; ALL ordered pairs of objects vs the C11 key, spellings of one version must be ==; all triples of a {}-element sub-universe; find_max_version_tag on all ordered selections of <=3 of {} objects. non-trivial = pairs that differ under the key or are distinct spellings of one version", u.len(), sub.len(), sub2.len());
+    cov.rule = format!("{n_versions} abstract versions (epoch x release x pre x post x dev x local field universe), each written in 5 spellings (normal; upper case + long labels + -/_ separators; leading zeros + v; trailing .0.0 release + alternative labels + -N post; explicit epoch + .0 + implicit zero numbers) and parsed by the real parser = {} objects; ALL ordered pairs of objects vs the C11 key, spellings of one version must be ==; a second universe of {nb_versions} versions whose epoch / release / pre / post / dev numbers sit at 0 and 2^32-1 (all ordered pairs of its spellings as well); all triples of a {}-element sub-universe; find_max_version_tag on all ordered selections of <=3 of {} objects. non-trivial = pairs that differ under the key or are distinct spellings of one version", u.len(), sub.len(), sub2.len());
     cov.exhaustive = true;
     cov.samples = vec![json!({"a": u[7].text, "b": u[u.len()/2+3].text}), json!({"a": u[u.len()-1].text, "b": u[u.len()-4].text}), json!({"a": u[11].text, "b": u[13].text})];
     cov.set("clause_counts", all.to_json());
